@@ -63,7 +63,7 @@ def _run(args, cwd, timeout, env_extra=None, heap='4g'):
 
 _LABEL = re.compile(r'^\\\* <(\w+)(?:\((.*)\))? line \d+, col \d+ to line \d+, col \d+ of module (\w+)>')
 _STATE_HDR = re.compile(r'^State (\d+): <(\w+)(?:\((.*)\))? line \d+')
-_COV = re.compile(r'^<(\w+) line (\d+), col \d+ to line \d+, col \d+ of module (\w+)>: (\d+):(\d+)')
+_COV = re.compile(r'^<(\w+) line (\d+), col \d+ to line \d+, col \d+ of module (\w+)(?: \([\d ]+\))?>: (\d+):(\d+)')
 _STATS = re.compile(r'(\d+) states generated, (\d+) distinct states found, (\d+) states left on queue')
 _DEPTH = re.compile(r'The depth of the complete state graph search is (\d+)')
 
